@@ -107,6 +107,31 @@ def gen_statements(tier, seed):
                 out.append(('fill', rng.choice(TX.FILL)))
             out.append(p)
         cases.append(("S", out, True))
+    # H: three and four levels of combinations with text outside the combination at several levels on the same side:
+    # the text of every enclosing level is shared by the innermost values
+    for i in range(36 if tier == "quick" else 400):
+        sym = rng.choice([x for x in TX.PAREN if ',p' not in x])
+        side = i % 3                      # 0 left, 1 right, 2 both
+        def shw(p=1.0):
+            return tg.word() if rng.random() < p else ''
+        def wrap(t, p):
+            l, r = (shw(p) if side in (0, 2) else ''), (shw(p) if side in (1, 2) else '')
+            return ('sh', l, t, r) if (l or r) else t
+        inner = ('op', rng.choice(TX.OPS), ('leaf', tg.word()), ('leaf', tg.word()))
+        mid = ('op', rng.choice(TX.OPS), wrap(inner, 0.6), ('leaf', tg.word()))
+        if rng.random() < 0.5:
+            mid = ('op', mid[1], mid[3], mid[2])
+        if i % 2:
+            mid = ('op', rng.choice(TX.OPS), wrap(mid, 0.8), ('leaf', tg.word()))
+        top = ('op', rng.choice(TX.OPS), wrap(mid, 0.9), ('leaf', tg.word()))
+        if rng.random() < 0.5:
+            top = ('op', top[1], top[3], top[2])
+        c = ('comb', shw() if side in (0, 2) else '', top, shw() if side in (1, 2) else '')
+        parts = [('comp', sym, '', '', c)]
+        if sym != 'I':
+            parts.append(('comp', 'I', '', '', ('leaf', tg.word())))
+        rng.shuffle(parts)
+        cases.append(("H", parts, True))
     # D: the same text more than once: an inner combination, a whole component content or single values repeated in two
     # components of one statement (with and without shared text around one of the occurrences)
     for i in range(40 if tier == "quick" else 600):
@@ -182,6 +207,7 @@ def run(args):
     res = run_pool([build.obs], [{"mode": "parse", "stmt": t} for t in texts], NCPU, timeout=60)
     dist = {"stream": {}, "components": {}, "leaves": {}}
     nontrivial = 0
+    shared_cases = []
     for (stream, parts, ch), t, r in zip(cases, texts, res):
         case = {"text": t}
         dist["stream"][stream] = dist["stream"].get(stream, 0) + 1
@@ -207,6 +233,8 @@ def run(args):
         except Exception as e:
             V.broke("harness:dump", str(e)[:200])
             continue
+        if "eff_shared" in r:
+            shared_cases.append((case, r["nodes"][0], r["eff_shared"]))
         exp = TX.d_stmt(parts)
         if any(n[0] == 'C' for _, n in exp):
             nontrivial += 1
@@ -214,11 +242,32 @@ def run(args):
         if d:
             V.violation("parse:tree-differs-from-written", case, observed=d[0], expected=d[1],
                         what="the parsed tree of a component differs from the annotated text (leaves, operators, precedence, shared text, suffix or annotation)")
+    # (3) the shared text every value reports (GetSharedLeft / GetSharedRight) = the model's (Spec/Shared.v) on the parsed tree
+    sh = {"values": 0, "with_inherited_text": 0, "three_levels": 0}
+    if build.modelrun and shared_cases:
+        ml = run_lines([build.modelrun], ["shared\t%s" % t for _, t, _ in shared_cases])
+        bad = 0
+        for (case, t, got), m in zip(shared_cases, ml):
+            if not m.startswith("ok "):
+                V.broke("model:shared", m[:200])
+                break
+            exp = [[[bytes.fromhex(x[1:] if x.startswith('x') else x).decode('utf-8', 'replace') for x in side] for side in v] for v in json.loads(m[3:])]
+            got = [[list(side or []) for side in v] for v in got]
+            sh["values"] += len(exp)
+            sh["with_inherited_text"] += sum(1 for v in exp if len(v[0]) + len(v[1]) >= 1)
+            sh["three_levels"] += sum(1 for v in exp if len(v[0]) >= 3 or len(v[1]) >= 3)
+            if got != exp:
+                k = next((i for i, (a, b) in enumerate(zip(got, exp)) if a != b), min(len(got), len(exp)))
+                bad += 1
+                if bad <= 5:
+                    V.violation("parse:shared-text-of-value", case, observed={"value_index": k, "shared": got[k] if k < len(got) else None},
+                                expected={"shared": exp[k] if k < len(exp) else None},
+                                what="a value does not report the text written outside the combinations that enclose it (left, right shared text) as the statement has it")
     cov = std_coverage(po, len(exprs) + len(cases), nontrivial,
                        "F: combination expressions (every operator tree <= 4 leaves x 3 operators, explicit parentheses / same-operator chains / without outer parentheses, shared text around inner "
                        "combinations, ~500 token-level mutations) through ParseIntoNodeTree vs the extracted Coq model; E: every tree <= 4 leaves in every rendering on %d component symbols; "
                        "S: 260 sampled statements (<= 8 components, depth <= 4, shared text at component level and around inner combinations, suffixes without property, annotations, filler words, "
-                       "repeated annotations) through ParseStatement, compared with the denotation of the generating AST. Non-trivial = statement with at least one combination." % (16 if args.tier == "thorough" else 3),
+                       "repeated annotations) and H: statements with 3-4 combination levels carrying outside text on the same side, through ParseStatement, compared with the denotation of the generating AST; the shared text each value reports is compared with the model's on the parsed tree. Non-trivial = statement with at least one combination." % (16 if args.tier == "thorough" else 3),
                        [texts[0], texts[len(texts) // 2], texts[-1]],
-                       {"distribution": dist, "function_level": len(exprs), "endpoint_level": len(cases), "outcome_classes": classes, "correspondence_mismatches": pm, "exhaustive": False})
+                       {"distribution": dist, "function_level": len(exprs), "endpoint_level": len(cases), "outcome_classes": classes, "correspondence_mismatches": pm, "shared_text": sh, "exhaustive": False})
     return V.finish(cov, po["assumptions"])
